@@ -44,6 +44,12 @@ CHECKS = {
     },
 }
 
+CHECKS["C09"] = {
+    "technique": "runtime monitoring, metamorphic: original and layout-transformed program parsed, linted and run by the real code; parse trees (positions erased), checker verdicts and run-time behaviour compared",
+    "text": "Every BASIC text embedded in the repository (accepted and rejected) and generated programs are transformed by keyword case, identifier case (consistent and inconsistent), blank/tab resizing, blank lines, trailing comments, LF/CRLF/CR/mixed line endings and newline<->colon between simple statements, each alone and all at once; any change of tree, verdict (accept | parse error | lint error kind) or behaviour (stdout, lpt1, outcome code) is a violation.",
+    "note": "Which syntax error a rejected text gets is compared as a class only; the tree is not compared for the comment transform; one known finding (KF-C09-1) is pinned.",
+    "design": "DESIGN.md section 2 C09",
+}
 CHECKS["C19"] = {
     "engine": "bitmon",
     "technique": "runtime monitoring: direct calls of the real bit-level functions compared online with the machine operations (exhaustive over all 65536 INTEGER values), plus the same primitives observed end to end through BASIC programs",
